@@ -269,3 +269,166 @@ Example C03_example_dump_oracle :
   decrease_ok (show_hier exH) = true /\
   dump_ok 1 true true (Some (exq 2)) (show_hier exH) = false.
 Proof. vm_compute. auto. Qed.
+
+(* ------------------------------------------------------------------ *)
+(* Hierarchies built ENTIRELY inside the model (AmgFull.v): the transfer operators of every level
+   are computed by the coarsening model Coarsen.coarsen_step (aggregation, smoothed aggregation,
+   energy-minimising smoothed aggregation, Ruge-Stuben), nothing is supplied.  T8: such a hierarchy
+   IS a [build] hierarchy for the transfer operators the coarsening chooses, so T1-T5 hold for it
+   with no reference to implementation-supplied P/R.  Tie: op amgfull (ocaml/amgb) against the
+   dumps of harness/amg_driver.hpp, exactly (tools/props/C03.py run_full). *)
+From Amgcl Require Import Aggregates Coarsen AmgFull AmgFullProofs.
+
+Theorem C03_full_is_build {S : Scalar} ce dc nt (cop : crs S -> crs S -> crs S -> crs S) junk junkf k pol A lev ls :
+  build_full ce dc nt cop junk junkf k pol A lev = FullOk ls ->
+  ls = build ce dc (lev + Datatypes.S k) cop (full_transfers ce nt cop junk junkf k pol A lev) A lev.
+Proof. exact (build_full_is_build ce dc nt cop junk junkf k pol A lev ls). Qed.
+Print Assumptions C03_full_is_build.
+
+(* "the transfer operators chosen on that level": every level carries the (row-sorted) output of
+   the coarsening model for that level's matrix and policy state *)
+Theorem C03_full_transfers_from_coarsening {S : Scalar} ce dc nt (cop : crs S -> crs S -> crs S -> crs S) junk junkf k pol A lev ls :
+  build_full ce dc nt cop junk junkf k pol A lev = FullOk ls -> full_chain nt junk junkf pol lev ls.
+Proof. exact (build_full_chain ce dc nt cop junk junkf k pol A lev ls). Qed.
+Print Assumptions C03_full_transfers_from_coarsening.
+
+Theorem C03_full_galerkin_chain {S : Scalar} ce dc nt (cop : crs S -> crs S -> crs S -> crs S) junk junkf k pol A lev ls :
+  build_full ce dc nt cop junk junkf k pol A lev = FullOk ls -> chain cop ls /\ head_A ls A.
+Proof. exact (build_full_galerkin_chain ce dc nt cop junk junkf k pol A lev ls). Qed.
+Print Assumptions C03_full_galerkin_chain.
+
+Theorem C03_full_last_level_rule {S : Scalar} ce dc nt (cop : crs S -> crs S -> crs S -> crs S) junk junkf k pol A lev ls d :
+  build_full ce dc nt cop junk junkf k pol A lev = FullOk ls ->
+  match last ls d with
+  | LSolve A' => nrows A' <= ce /\ dc = true
+  | LLast A' => nrows A' <= ce -> dc = false
+  | LMid _ _ _ => False
+  end.
+Proof. exact (build_full_last_rule ce dc nt cop junk junkf k pol A lev ls d). Qed.
+Print Assumptions C03_full_last_level_rule.
+
+Theorem C03_full_number_of_levels {S : Scalar} ce dc nt (cop : crs S -> crs S -> crs S -> crs S) junk junkf k pol A lev ls :
+  build_full ce dc nt cop junk junkf k pol A lev = FullOk ls -> length ls <= Datatypes.S k.
+Proof. exact (build_full_length ce dc nt cop junk junkf k pol A lev ls). Qed.
+Print Assumptions C03_full_number_of_levels.
+
+(* the constructor amg(M, prm) with the coarsening policy pol *)
+Theorem C03_full_init_is_init {S : Scalar} ce dc ml nt junk junkf (pol : @policy S) M ls :
+  amg_init_full ce dc ml nt junk junkf pol M = FullOk ls ->
+  ls = amg_init ce dc (eff_levels ml) (policy_cop pol) (init_transfers ce ml nt junk junkf pol M) M.
+Proof. exact (amg_init_full_is_amg_init ce dc ml nt junk junkf pol M ls). Qed.
+Print Assumptions C03_full_init_is_init.
+
+Theorem C03_full_init_chain {S : Scalar} ce dc ml nt junk junkf (pol : @policy S) M ls :
+  amg_init_full ce dc ml nt junk junkf pol M = FullOk ls ->
+  chain (policy_cop pol) ls /\ head_A ls (sort_rows M) /\ full_chain nt junk junkf pol 0 ls.
+Proof. exact (amg_init_full_chain ce dc ml nt junk junkf pol M ls). Qed.
+Print Assumptions C03_full_init_chain.
+
+Theorem C03_full_init_levels {S : Scalar} ce dc ml nt junk junkf (pol : @policy S) M ls :
+  amg_init_full ce dc ml nt junk junkf pol M = FullOk ls -> length ls <= Nat.max ml 1.
+Proof. exact (amg_init_full_levels ce dc ml nt junk junkf pol M ls). Qed.
+Print Assumptions C03_full_init_levels.
+
+Theorem C03_full_init_last_level_rule {S : Scalar} ce dc ml nt junk junkf (pol : @policy S) M ls d :
+  amg_init_full ce dc ml nt junk junkf pol M = FullOk ls ->
+  match last ls d with
+  | LSolve A' => nrows A' <= ce /\ dc = true
+  | LLast A' => nrows A' <= ce -> dc = false
+  | LMid _ _ _ => False
+  end.
+Proof. exact (amg_init_full_last_rule ce dc ml nt junk junkf pol M ls d). Qed.
+Print Assumptions C03_full_init_last_level_rule.
+
+(* rebuild *)
+Theorem C03_full_rebuild_keeps_transfers_and_chain {S : Scalar} ce dc nt (cop : crs S -> crs S -> crs S -> crs S) junk junkf k pol A ls M' :
+  build_full ce dc nt cop junk junkf k pol A 0 = FullOk ls ->
+  chain cop (amg_rebuild cop ls M') /\ head_A (amg_rebuild cop ls M') (sort_rows M') /\
+  transfers_of (amg_rebuild cop ls M') = transfers_of ls.
+Proof. exact (build_full_rebuild_chain ce dc nt cop junk junkf k pol A ls M'). Qed.
+Print Assumptions C03_full_rebuild_keeps_transfers_and_chain.
+
+Theorem C03_full_rebuild_is_fresh_build {S : Scalar} ce dc ml nt junk junkf (pol : @policy S) M M' ls :
+  amg_init_full ce dc ml nt junk junkf pol M = FullOk ls -> nrows M' = nrows M ->
+  amg_rebuild (policy_cop pol) ls M' =
+  amg_init ce dc (eff_levels ml) (policy_cop pol) (init_transfers ce ml nt junk junkf pol M) M'.
+Proof. exact (amg_init_full_rebuild_fresh ce dc ml nt junk junkf pol M M' ls). Qed.
+Print Assumptions C03_full_rebuild_is_fresh_build.
+
+Theorem C03_full_rebuild_is_fresh_build_from_stored {S : Scalar} ce dc ml nt junk junkf (pol : @policy S) M M' ls :
+  amg_init_full ce dc ml nt junk junkf pol M = FullOk ls -> nrows M' = nrows M ->
+  amg_rebuild (policy_cop pol) ls M' = amg_init ce dc (eff_levels ml) (policy_cop pol) (transfers_of ls) M'.
+Proof. exact (amg_init_full_rebuild_stored ce dc ml nt junk junkf pol M M' ls). Qed.
+Print Assumptions C03_full_rebuild_is_fresh_build_from_stored.
+
+Theorem C03_full_rebuild_restores_original {S : Scalar} ce dc ml nt junk junkf (pol : @policy S) M M' ls :
+  amg_init_full ce dc ml nt junk junkf pol M = FullOk ls -> nrows M' = nrows M ->
+  amg_rebuild (policy_cop pol) (amg_rebuild (policy_cop pol) ls M') M = ls.
+Proof. exact (amg_init_full_rebuild_restore ce dc ml nt junk junkf pol M M' ls). Qed.
+Print Assumptions C03_full_rebuild_restores_original.
+
+Theorem C03_full_rebuild_history {S : Scalar} ce dc ml nt junk junkf (pol : @policy S) M (Ms : list (crs S)) M' ls :
+  amg_init_full ce dc ml nt junk junkf pol M = FullOk ls ->
+  Forall (fun X => nrows X = nrows M) Ms -> nrows M' = nrows M ->
+  amg_rebuild (policy_cop pol) (fold_left (amg_rebuild (policy_cop pol)) Ms ls) M' =
+  amg_init ce dc (eff_levels ml) (policy_cop pol) (init_transfers ce ml nt junk junkf pol M) M'.
+Proof. exact (amg_init_full_rebuild_history ce dc ml nt junk junkf pol M Ms M' ls). Qed.
+Print Assumptions C03_full_rebuild_history.
+
+(* R = adjoint P for aggregation / smoothed aggregation / Ruge-Stuben: by construction *)
+Theorem C03_full_restriction_is_transpose {S : Scalar} nt junk junkf (ls : list (@ldesc S)) (pol : @policy S) lev :
+  policy_adjoint pol = true -> full_chain nt junk junkf pol lev ls ->
+  forall n A P R, nth_error ls n = Some (LMid A P R) ->
+  exists P0, P = sort_rows P0 /\ R = sort_rows (transpose P0).
+Proof. exact (full_chain_adjoint nt junk junkf ls pol lev). Qed.
+Print Assumptions C03_full_restriction_is_transpose.
+
+(* dense Galerkin product at every level (commutative ring) *)
+Theorem C03_full_levels_dense {S : Scalar} (Srt : Sring S) ce dc ml nt junk junkf (pol : @policy S) (M : crs S) ls :
+  amg_init_full ce dc ml nt junk junkf pol M = FullOk ls ->
+  forall n A P R next i j,
+  nth_error ls n = Some (LMid A P R) -> nth_error ls (Datatypes.S n) = Some next ->
+  wf A = true -> wf R = true ->
+  mget (ld_A next) i j =
+  match policy_scale pol with
+  | Some s => sumn (fun k => mget R i k * sumn (fun l => mget A k l * mget P l j) (ncols A)) (ncols R) * s
+  | None => sumn (fun k => mget R i k * sumn (fun l => mget A k l * mget P l j) (ncols A)) (ncols R)
+  end.
+Proof. exact (amg_init_full_dense Srt ce dc ml nt junk junkf pol M ls). Qed.
+Print Assumptions C03_full_levels_dense.
+
+Theorem C03_full_levels_dense_Qc ce dc ml nt junk junkf (pol : @policy QcS) (M : crs QcS) ls :
+  amg_init_full ce dc ml nt junk junkf pol M = FullOk ls ->
+  forall n A P R next i j,
+  nth_error ls n = Some (LMid A P R) -> nth_error ls (Datatypes.S n) = Some next ->
+  wf A = true -> wf R = true ->
+  mget (ld_A next) i j =
+  match policy_scale pol with
+  | Some s => sumn (fun k => mget R i k * sumn (fun l => mget A k l * mget P l j) (ncols A)) (ncols R) * s
+  | None => sumn (fun k => mget R i k * sumn (fun l => mget A k l * mget P l j) (ncols A)) (ncols R)
+  end.
+Proof. exact (amg_init_full_dense QcS_ring ce dc ml nt junk junkf pol M ls). Qed.
+Print Assumptions C03_full_levels_dense_Qc.
+
+(* non-vacuity: the 1D Laplacian exM coarsened inside the model by plain aggregation
+   (over_interp = 2), smoothed aggregation and Ruge-Stuben: three levels 4 -> 2 -> 1 each, direct
+   solver at the bottom; with max_levels = 2 the second level is the last and keeps its smoother;
+   the rebuilt hierarchy passes the dump oracle *)
+Definition exJunk : nat -> vec QcS := fun _ => [exq 0; exq 0; exq 0; exq 0].
+Definition exJunkF : nat -> flags := fun _ => [].
+Definition exPolA : @policy QcS := PolAggregation (qc 1 100) 1 (qc 1 2).
+Definition exPolS : @policy QcS := PolSA [qc 1 100; qc 1 400; qc 1 1600] 1 (exq 1) (qc 2 3).
+Definition exPolR : @policy QcS := PolRS (qc 1 4) (qc 1 5) true.
+Definition ex_shape (r : @full_result QcS) : option (list bool * list nat) :=
+  match r with FullOk ls => Some (map is_mid ls, map (fun l => nrows (ld_A l)) ls) | _ => None end.
+Example C03_example_full_hierarchies :
+  ex_shape (amg_init_full 1 true 10 1 exJunk exJunkF exPolA exM) = Some ([true; true; false], [4; 2; 1]%nat) /\
+  ex_shape (amg_init_full 1 true 10 1 exJunk exJunkF exPolS exM) = Some ([true; true; false], [4; 2; 1]%nat) /\
+  ex_shape (amg_init_full 1 true 10 1 exJunk exJunkF exPolR exM) = Some ([true; true; false], [4; 2; 1]%nat) /\
+  ex_shape (amg_init_full 1 false 2 1 exJunk exJunkF exPolA exM) = Some ([true; false], [4; 2]%nat) /\
+  match amg_init_full 1 true 10 1 exJunk exJunkF exPolA exM with
+  | FullOk ls => dump_ok 1 true true (Some (qc 1 2)) (show_hier (amg_rebuild (policy_cop exPolA) ls (mscale exM (exq 3)))) = true
+                 /\ dump_ok 1 true true None (show_hier ls) = false
+  | _ => False
+  end.
+Proof. vm_compute. auto. Qed.
